@@ -6,8 +6,9 @@ whole-system translation (periodic) — and every observable is recomputed.
 Continuous observables must agree within tau propagated through their Lipschitz factor, where
    tau = 16*eps32*(M0 + M1) + 1e-7        (M0, M1: largest |coordinate| before / after the transformation)
 is the float32 rounding of coordinates and of differences of them:
-   distances tau*4; angles/dihedrals 8*tau/l_min (skipped when a bond is < 1e-3 nm or a bond angle within 1e-2 rad of
-   0/pi); rmsd to the co-moved reference 16*tau; rg 4*tau; gyration-tensor eigenvalues 3*(2*R*4tau + (4tau)^2);
+   distances tau*4; angles 8*tau/l_min + 4*eps32/sin(theta) (the kernels take acos of a float32 cosine, whose
+   conditioning is 1/sin(theta): at theta = 0.0127 rad one float32 ulp of the cosine is 4.7e-6 rad), dihedrals
+   16*tau/(l_min*sin) (both skipped when a bond is < 1e-3 nm or a bond angle within 1e-2 rad of 0/pi); rmsd to the co-moved reference 16*tau; rg 4*tau; gyration-tensor eigenvalues 3*(2*R*4tau + (4tau)^2);
    ca-contacts 4*tau; DRID moments through d(1/d) = 4tau/d_min^2 (compared on mu, sigma^2, nu^3).
 Discrete observables (hydrogen-bond triplets, DSSP codes, neighbour sets, neighbour lists) must be IDENTICAL except
 where the deciding quantity lies within the band of its threshold, evaluated in float64 on the original structure:
@@ -182,7 +183,8 @@ def rigid(case, ctx, t0, rng):
          md.compute_distances(t1, pairs, periodic=False), 4 * tau, "distances before/after rigid motion")
     lmin, good = _angle_conditioning(x0, trip)
     a0, a1 = md.compute_angles(t0, trip, periodic=False)[0], md.compute_angles(t1, trip, periodic=False)[0]
-    _cmp(ctx, "rigid.angles", f"{tag}:compute_angles", a0, a1, 8 * tau / lmin + 1e-6, "angles before/after rigid motion", mask=good)
+    sin0 = np.maximum(np.sin(np.asarray(a0, np.float64)), 1e-3)
+    _cmp(ctx, "rigid.angles", f"{tag}:compute_angles", a0, a1, 8 * tau / lmin + 4 * EPS / sin0 + 1e-6, "angles before/after rigid motion", mask=good)
     lq, goodq = _dihedral_conditioning(x0, quad)
     d0, d1 = md.compute_dihedrals(t0, quad, periodic=False)[0], md.compute_dihedrals(t1, quad, periodic=False)[0]
     dd = circ(d0, d1)
@@ -374,7 +376,8 @@ def lattice(case, ctx, t0, rng):
     ang = geom.angle_vec(u, v)
     good = (np.minimum(lu, lv) > 1e-3) & (np.maximum(lu, lv) < w / 2 - 4 * tau) & (ang > 1e-2) & (ang < np.pi - 1e-2)
     aa, ab = md.compute_angles(ta, trip)[0], md.compute_angles(tb, trip)[0]
-    _cmp(ctx, "lattice.angles", f"{tag}:compute_angles", aa, ab, 8 * tau / np.minimum(lu, lv) + 1e-6, "periodic angles before/after lattice shifts", mask=good)
+    _cmp(ctx, "lattice.angles", f"{tag}:compute_angles", aa, ab, 8 * tau / np.minimum(lu, lv) + 4 * EPS / np.maximum(np.sin(ang), 1e-3) + 1e-6,
+         "periodic angles before/after lattice shifts", mask=good)
     b1, l1 = mi(quad[:, 0], quad[:, 1])
     b2, l2 = mi(quad[:, 1], quad[:, 2])
     b3, l3 = mi(quad[:, 2], quad[:, 3])
